@@ -104,7 +104,8 @@ class Den:
                 return ('buffers', self.of(e['args'][0]))
             if ('core::ops::index::Index' in r) and e['args'][1][0] == 'agg' and e['args'][1][1][1] == 'core::ops::range::RangeFull':
                 return self.slice_of(e['args'][0])
-            if r in ('<alloc::vec::Vec<T, A> as core::ops::deref::Deref>::deref', '<alloc::vec::Vec<T, A> as core::ops::deref::DerefMut>::deref_mut'):
+            if r in ('<alloc::vec::Vec<T, A> as core::ops::deref::Deref>::deref', '<alloc::vec::Vec<T, A> as core::ops::deref::DerefMut>::deref_mut',
+                     'alloc::vec::Vec::<T, A>::as_slice', 'alloc::vec::Vec::<T, A>::as_mut_slice'):
                 return ('vec', self.of(e['args'][0]))
             if r.endswith('Buffer as core::ops::deref::Deref>::deref') or r.endswith('Buffer as core::ops::deref::DerefMut>::deref_mut'):
                 return ('samples', self.of(e['args'][0]))
